@@ -197,7 +197,7 @@ def boolean(ctx, depth, center, scale, envs, nrows, relation_log):
         return prim(ctx, center, scale)
     for _ in range(25):
         op = str(rng.choice(["union", "cut", "isect"]))
-        rel = str(rng.choice(["overlap", "overlap", "contained", "disjoint", "abut", "tangent"]))
+        rel = str(rng.choice(["overlap", "overlap", "contained", "disjoint", "abut", "tangent", "aligned"]))
         a = boolean(ctx, depth - 1, center, scale, envs, nrows, relation_log)
         flag = False
         dimv = ctx.dim
@@ -224,6 +224,18 @@ def boolean(ctx, depth, center, scale, envs, nrows, relation_log):
             a = {"prim": "parallelogram", "var": "x", "origin": [x0, y0], "c1": [x0 + w1, y0], "c2": [x0, y0 + h]}
             b = {"prim": "parallelogram", "var": "x", "origin": [x0 + w1, y0], "c1": [x0 + w1 + w2, y0],
                  "c2": [x0 + w1, y0 + h]}
+        elif rel == "aligned":
+            if dimv != 2 or ctx.dep:
+                continue
+            # two axis-parallel rectangles with the same y-range that overlap in x (collinear edges: corners of one
+            # operand lie on edges of the other, grid samples hit points on both boundaries)
+            x0, y0 = [round(float(v) * 4) / 4 for v in (np.asarray(center, float) - scale)]
+            w1, w2, h = [max(0.5, round(float(scale * rng.uniform(0.8, 1.6)) * 4) / 4) for _ in range(3)]
+            sh = max(0.25, round(float(0.5 * w1) * 4) / 4)
+            a = {"prim": "parallelogram", "var": "x", "origin": [x0, y0], "c1": [x0 + w1, y0], "c2": [x0, y0 + h]}
+            b = {"prim": "parallelogram", "var": "x", "origin": [x0 + sh, y0], "c1": [x0 + sh + w2, y0], "c2": [x0 + sh, y0 + h]}
+            if rng.random() < 0.5:
+                a, b = b, a
         elif rel == "tangent":
             if dimv == 1 or op != "union" or ctx.dep:
                 continue
